@@ -48,7 +48,7 @@ PROP = {
                 "GbVerif.Proofs.CoreCycles", "GbVerif.Proofs.CoreStep", "GbVerif.Proofs.CoreFrame", "GbVerif.Props.C06",
                 "GbVerif.Model.Sys", "GbVerif.Model.Timer", "GbVerif.Model.Lcd", "GbVerif.Proofs.InterpFrame", "GbVerif.Proofs.SysFrame", "GbVerif.Proofs.SysTotal", "GbVerif.Proofs.SysBatch", "GbVerif.Proofs.Machine", "GbVerif.Proofs.Timer", "GbVerif.Proofs.Lcd", "GbVerif.Proofs.BusIo", "GbVerif.Proofs.BusWf"],
     "exhaustive": False,
-    "rule": "c09.frame also runs the real run_frame on polling loops in the last two bytes of a ROM region (0x3FFE, 0x7FFE; property-only lines); quick 200 / thorough 6000 generated programs (1-3 subroutines, prologue programming TMA/TIMA/TAC/STAT/LYC/IE, 3-16 blocks out of "
+    "rule": "one program block kind in fifteen switches the display off and on again (LCDC bit 7 clear, 0-3 NOPs, set): the LCD's clock does not care; c09.frame also runs the real run_frame on polling loops in the last two bytes of a ROM region (0x3FFE, 0x7FFE; property-only lines); quick 200 / thorough 6000 generated programs (1-3 subroutines, prologue programming TMA/TIMA/TAC/STAT/LYC/IE, 3-16 blocks out of "
             "13 kinds, HALT/STOP/NOP tail loop) x 1000 / 1500 steps, per build; c09.frame: 7 fixed + 12 / 60 random (first block, "
             "loop block) lengths. Non-trivial = some step was suspended or ended in a dispatch (frame: a block longer than a line).",
     "assumptions": ["pixel work of the LCD (line buffers, sprite search, swap_buffers) is not in Sys.dev: it writes none of the state the CPU, "
